@@ -170,6 +170,7 @@ func runCheck(prop, tier, repo, verif, only string, updateBaseline bool) int {
 		return fail("load: " + err.Error())
 	}
 	w.specFn("")
+	evalAllFacts(w, filepath.Join(verif, "out", prop))
 
 	// select functions
 	var sel []*FuncContract
@@ -280,7 +281,6 @@ func runCheck(prop, tier, repo, verif, only string, updateBaseline bool) int {
 		obls = append(obls, &Obligation{Name: "contract.unresolved:" + fc.Key, Kind: "contract", Func: fc.Key, Properties: []string{prop}, Status: "unsupported", Raw: "contract target does not resolve: " + u, Unsupported: "unresolved", Desc: "the function, closure or loop this contract is written for no longer exists"})
 	}
 
-	evalFacts(w, obls, outDir)
 	var todo []*Obligation
 	for _, o := range obls {
 		if o.Status == "" {
@@ -588,14 +588,25 @@ func closedObligation(w *World, cf *ContractFile, c *Clause) *Obligation {
 }
 
 
-// evalFacts decides the closed `fact` obligations by running the real code: for every package with such
-// obligations a test is injected through a build overlay (nothing is written to /repo) that calls the
-// generated spec functions, and `go test -tags verif` is run on /repo's working tree.
-func evalFacts(w *World, obls []*Obligation, outDir string) {
-	byPkg := map[string][]*Obligation{}
-	for _, o := range obls {
-		if o.EvalPkg != "" && o.Status == "" {
-			byPkg[o.EvalPkg] = append(byPkg[o.EvalPkg], o)
+// evalAllFacts decides every closed `fact` clause by running the real code: for every package with such
+// clauses a test is injected through a build overlay (nothing is written to /repo) that calls the
+// generated spec functions, and `go test -tags verif` is run on /repo's working tree.  Facts that do not
+// evaluate to true are reported as failed obligations and are NOT assumed anywhere.
+type factRes struct {
+	status string // discharged failed unknown
+	raw    string
+	ms     int64
+}
+
+func evalAllFacts(w *World, outDir string) {
+	w.FactResult = map[string]factRes{}
+	type item struct{ pkg, fn string }
+	byPkg := map[string][]string{}
+	for path, cf := range w.FileOfPkg {
+		for _, c := range cf.PkgInvs {
+			if c.Kind == "fact" {
+				byPkg[path] = append(byPkg[path], c.SpecFn)
+			}
 		}
 	}
 	if len(byPkg) == 0 {
@@ -620,6 +631,7 @@ func evalFacts(w *World, obls []*Obligation, outDir string) {
 		pkgs = append(pkgs, p)
 	}
 	sort.Strings(pkgs)
+	var runnable []string
 	for _, pp := range pkgs {
 		var dir, name string
 		for _, p := range w.Pkgs {
@@ -628,45 +640,50 @@ func evalFacts(w *World, obls []*Obligation, outDir string) {
 			}
 		}
 		if dir == "" {
-			for _, o := range byPkg[pp] {
-				o.Status, o.Raw = "unknown", "package directory not found"
+			for _, fn := range byPkg[pp] {
+				w.FactResult[pp+"::"+fn] = factRes{"unknown", "package directory not found", 0}
 			}
 			continue
 		}
 		var b strings.Builder
 		fmt.Fprintf(&b, "//go:build verif\n\npackage %s\n\nimport \"testing\"\n\nfunc TestZZVerifFacts(t *testing.T) {\n", name)
-		for _, o := range byPkg[pp] {
-			fmt.Fprintf(&b, "\tif %s() {\n\t\tt.Logf(\"FACT-OK %s\")\n\t} else {\n\t\tt.Errorf(\"FACT-FAILED %s\")\n\t}\n", o.EvalFn, o.EvalFn, o.EvalFn)
+		for _, fn := range byPkg[pp] {
+			fmt.Fprintf(&b, "\tif %s() {\n\t\tt.Logf(\"FACT-OK %s\")\n\t} else {\n\t\tt.Errorf(\"FACT-FAILED %s\")\n\t}\n", fn, fn, fn)
 		}
 		b.WriteString("}\n")
 		add(filepath.Join(dir, "zz_verif_facts_test.go"), []byte(b.String()))
+		runnable = append(runnable, pp)
 	}
 	ovJSON, _ := json.Marshal(map[string]interface{}{"Replace": replace})
 	ovFile := filepath.Join(ovDir, "overlay.json")
 	os.WriteFile(ovFile, ovJSON, 0o644)
-	for _, pp := range pkgs {
-		t0 := time.Now()
-		cmd := exec.Command("go", "test", "-tags", "verif", "-overlay", ovFile, "-vet=off", "-count=1", "-timeout", "120s", "-run", "^TestZZVerifFacts$", "-v", pp)
-		cmd.Dir = w.RepoDir
-		cmd.Env = append(os.Environ(), "GOFLAGS=-mod=mod", "GOPROXY=off", "GOSUMDB=off", "GOTOOLCHAIN=local")
-		out, _ := cmd.CombinedOutput()
-		ms := time.Since(t0).Milliseconds()
-		for _, o := range byPkg[pp] {
-			o.TimeMs = ms / int64(len(byPkg[pp]))
-			o.Solver = "go-eval(real code, no inputs)"
-			switch {
-			case strings.Contains(string(out), "FACT-OK "+o.EvalFn+"\n"):
-				o.Status = "discharged"
-			case strings.Contains(string(out), "FACT-FAILED "+o.EvalFn+"\n"):
-				o.Status = "failed"
-				o.Raw = "the expression evaluates to false on the real code"
-				o.Model = map[string]string{}
-			default:
-				o.Status = "unknown"
-				o.Raw = "go test did not run the fact: " + lastLines(string(out), 8)
+	var wg sync.WaitGroup
+	var mu sync.Mutex
+	for _, pp := range runnable {
+		wg.Add(1)
+		go func(pp string) {
+			defer wg.Done()
+			t0 := time.Now()
+			cmd := exec.Command("go", "test", "-tags", "verif", "-overlay", ovFile, "-vet=off", "-count=1", "-timeout", "120s", "-run", "^TestZZVerifFacts$", "-v", pp)
+			cmd.Dir = w.RepoDir
+			cmd.Env = append(os.Environ(), "GOFLAGS=-mod=mod", "GOPROXY=off", "GOSUMDB=off", "GOTOOLCHAIN=local")
+			out, _ := cmd.CombinedOutput()
+			ms := time.Since(t0).Milliseconds() / int64(len(byPkg[pp]))
+			mu.Lock()
+			defer mu.Unlock()
+			for _, fn := range byPkg[pp] {
+				switch {
+				case strings.Contains(string(out), "FACT-OK "+fn+"\n"):
+					w.FactResult[pp+"::"+fn] = factRes{"discharged", "", ms}
+				case strings.Contains(string(out), "FACT-FAILED "+fn+"\n"):
+					w.FactResult[pp+"::"+fn] = factRes{"failed", "the expression evaluates to false on the real code", ms}
+				default:
+					w.FactResult[pp+"::"+fn] = factRes{"unknown", "go test did not run the fact: " + lastLines(string(out), 8), ms}
+				}
 			}
-		}
+		}(pp)
 	}
+	wg.Wait()
 	os.RemoveAll(ovDir)
 }
 
